@@ -319,6 +319,24 @@ func scenarios(r *ev.Run) []*mc.Scenario {
 		priqScenario(4, [][]ent{{{1, 1}, {0, 2}}, {{2, 3}}}, 2),
 		priqScenario(4, [][]ent{{{1, 1}, {0, 2}, {1, 3}}}, 2),
 	)
+	// statement-level interleavings inside the queue code (lock misuse) for the smallest programs
+	for _, mk := range makers {
+		for _, sc := range []*mc.Scenario{
+			condScenario(mk, 2, nil, true, false, false, false),
+			condScenario(mk, 2, [][]int{{1, 2}}, false, false, false, false),
+			condScenario(mk, 2, [][]int{{1}}, true, mk().popAnyway != nil, false, false),
+		} {
+			sc.Name += "/fine"
+			sc.Fine = true
+			sc.PB = [2]int{1, 2}
+			scs = append(scs, sc)
+		}
+	}
+	fp := priqScenario(4, [][]ent{{{1, 1}}, {{2, 2}}}, 1)
+	fp.Name += "/fine"
+	fp.Fine = true
+	fp.PB = [2]int{1, 2}
+	scs = append(scs, fp)
 	return scs
 }
 
